@@ -11,6 +11,7 @@ func mathPowRef(x, y float64) float64   { return math.Pow(x, y) }
 func mathAtan2Ref(x, y float64) float64 { return math.Atan2(x, y) }
 func mathSqrtRef(x float64) float64     { return math.Sqrt(x) }
 func mathInfRef(sign int) float64        { return math.Inf(sign) }
+func mathRadPerDeg() float64             { return math.Pi / 180 }
 
 // mathLdexpRef is ldexp by its definition, in integer arithmetic on the IEEE fields (no floating-point
 // operation at all): x = (-1)^s * M * 2^(ex-1075) with M the 53-bit significand of a normal x; the result is
